@@ -54,6 +54,10 @@ def engines():
     E['feedback-shared'] = [A('ta', 'a', svs=sv2(), fb=[('tb', 'b', 's', 'x')]),
                             A('tb', 'b', inputs=[('ta', 'a', 's', 'x')], svs=sv2()),
                             A('tc', 'c', inputs=[('tb', 'b', 's', 'x')], svs=sv2())]
+    # one value read by an analyzer AND by a task (the analyzer's name sorts first)
+    E['mixed-dependents'] = [A('ta', 'a', svs=sv2()),
+                             A('tn', 'n', 'analysis', inputs=[('ta', 'a', 's', 'x')], svs=sv2()),
+                             A('tq', 'q', inputs=[('ta', 'a', 's', 'x')], svs=sv2())]
     E['join'] = [A('ta', 'a', svs=sv2()), A('tb', 'b', svs=sv2()),
                  A('tc', 'c', inputs=[('ta', 'a', 's', 'x'), ('tb', 'b', 's', 'y')], svs=sv2())]
     E['regress-leaf'] = [A('ta', 'a', svs=sv2()),
